@@ -2877,6 +2877,77 @@ func c05TolConds(fn *ssa.Function, aliases map[ssa.Value]bool, tolerated []strin
 				out[c05CondKey{c, true}] = true
 				return
 			}
+			// a table of sentinels: slices.Contains(table, err) / slices.ContainsFunc(table, func(x error) bool { return errors.Is(err, x) })
+			// with a package-level table that is only ever its literal and lists tolerated sentinels only
+			if n := CalleeName(c); (n == "slices.Contains" || n == "slices.ContainsFunc") && len(c.Call.Args) == 2 {
+				names, okT := c05GlobalErrorTable(c.Call.Args[0])
+				if !okT || len(names) == 0 {
+					return
+				}
+				for _, nm := range names {
+					if !tol[nm] {
+						return
+					}
+				}
+				if n == "slices.Contains" {
+					if isAl(c.Call.Args[1]) {
+						out[c05CondKey{c, true}] = true
+					}
+					return
+				}
+				mc, isMC := strip(c.Call.Args[1]).(*ssa.MakeClosure)
+				if !isMC {
+					return
+				}
+				pf := mc.Fn.(*ssa.Function)
+				if len(pf.Params) != 1 || len(pf.Blocks) != 1 {
+					return
+				}
+				rets := Returns(pf)
+				if len(rets) != 1 || len(rets[0].Results) != 1 {
+					return
+				}
+				// the predicate compares the captured error with its parameter
+				isCaptured := func(v ssa.Value) bool {
+					ld, ok := strip(v).(*ssa.UnOp)
+					if !ok || ld.Op != token.MUL {
+						return false
+					}
+					fv, ok := ld.X.(*ssa.FreeVar)
+					if !ok {
+						return false
+					}
+					for i, b := range mc.Bindings {
+						if pf.FreeVars[i] != fv {
+							continue
+						}
+						if al, isA := b.(*ssa.Alloc); isA {
+							if sv := c05SingleStoredValue(al); sv != nil && isAl(sv) {
+								return true
+							}
+							for _, st := range storesTo(al) {
+								if !isAl(st.Val) {
+									return false
+								}
+							}
+							return len(storesTo(al)) > 0
+						}
+					}
+					return false
+				}
+				isParam := func(v ssa.Value) bool { return strip(v) == ssa.Value(pf.Params[0]) }
+				switch r := rets[0].Results[0].(type) {
+				case *ssa.Call:
+					if CalleeName(r) == "errors.Is" && len(r.Call.Args) == 2 && isCaptured(r.Call.Args[0]) && isParam(r.Call.Args[1]) {
+						out[c05CondKey{c, true}] = true
+					}
+				case *ssa.BinOp:
+					if r.Op == token.EQL && ((isCaptured(r.X) && isParam(r.Y)) || (isCaptured(r.Y) && isParam(r.X))) {
+						out[c05CondKey{c, true}] = true
+					}
+				}
+				return
+			}
 			h := StaticCallee(c)
 			if h == nil || !inModule(h) || len(h.Blocks) == 0 || depth >= 2 || h.Signature.Results().Len() != 1 ||
 				!types.Identical(h.Signature.Results().At(0).Type(), types.Typ[types.Bool]) {
@@ -2949,4 +3020,362 @@ func c05FuncsOfPkg(p *Prog, rel string) []*ssa.Function {
 		}
 	}
 	return out
+}
+
+// ---------------------------------------------------------------- sync.Map and thin wrappers around it
+
+// c05MapView is a call seen as an operation on a concurrent map: a method of
+// sync.Map itself, or a forwarding method of an in-module wrapper type whose
+// only field is a sync.Map (`type typedMap[K, V] struct{ m sync.Map }`).
+type c05MapView struct {
+	Call  ssa.CallInstruction
+	Name  string    // canonical: "(*sync.Map).Load", "(*sync.Map).LoadOrStore", ...
+	Recv  ssa.Value // the map (address of the sync.Map or of the wrapper)
+	Key   ssa.Value // nil when the operation has none
+	Val   ssa.Value // value argument (Store/LoadOrStore/Swap), nil otherwise
+	Value ssa.Value // value result in the calling function, nil when absent / discarded
+	Ok    ssa.Value // ok / loaded result in the calling function, nil when absent / discarded
+}
+
+// c05MapFwd summarises a forwarding method of a sync.Map wrapper.
+type c05MapFwd struct {
+	name            string
+	key, val        int // parameter indices, -1 when absent
+	valueRes, okRes int // result indices, -1 when absent
+}
+
+var c05MapFwdCache = map[*ssa.Function]*c05MapFwd{}
+
+// c05IsSyncMapLike: sync.Map, or an in-module struct whose only field is a sync.Map.
+func c05IsSyncMapLike(t types.Type) bool {
+	if p, ok := t.(*types.Pointer); ok {
+		t = p.Elem()
+	}
+	if c05IsNamedType(t, "sync", "Map") {
+		return true
+	}
+	n, ok := t.(*types.Named)
+	if !ok || n.Obj().Pkg() == nil || !strings.HasPrefix(n.Obj().Pkg().Path(), Mod) {
+		return false
+	}
+	st, ok := n.Underlying().(*types.Struct)
+	return ok && st.NumFields() == 1 && c05IsNamedType(st.Field(0).Type(), "sync", "Map")
+}
+
+func c05MapFwdOf(h *ssa.Function) *c05MapFwd {
+	if h == nil {
+		return nil
+	}
+	if f, ok := c05MapFwdCache[h]; ok {
+		return f
+	}
+	c05MapFwdCache[h] = nil
+	if !inModule(h) || h.Signature.Recv() == nil || len(h.Params) == 0 {
+		return nil
+	}
+	if c05IsNamedType(h.Signature.Recv().Type(), "sync", "Map") || !c05IsSyncMapLike(h.Signature.Recv().Type()) {
+		return nil
+	}
+	if len(h.Blocks) == 0 {
+		if o := h.Origin(); o != nil && o != h {
+			f := c05MapFwdOf(o)
+			c05MapFwdCache[h] = f
+			return f
+		}
+		return nil
+	}
+	recv := h.Params[0]
+	// exactly one sync.Map operation, on the wrapped field of the receiver, in h or in a closure of h
+	var inner ssa.CallInstruction
+	n := 0
+	bad := false
+	scan := func(g *ssa.Function, inH bool) {
+		AllInstrs(g, func(in ssa.Instruction) {
+			call, ok := in.(ssa.CallInstruction)
+			if !ok {
+				switch in.(type) {
+				case *ssa.Store, *ssa.MapUpdate, *ssa.Send, *ssa.Go, *ssa.Defer:
+					if st, isSt := in.(*ssa.Store); isSt {
+						if a, isA := st.Addr.(*ssa.Alloc); isA && a.Parent() == g {
+							return // a local (named result, spilled parameter)
+						}
+					}
+					bad = true
+				}
+				return
+			}
+			name := CalleeName(call)
+			if strings.HasPrefix(name, "(*sync.Map).") {
+				n++
+				if inH {
+					fa, isFA := call.Common().Args[0].(*ssa.FieldAddr)
+					if !isFA || c05ParamOf(fa.X) != recv {
+						bad = true
+					}
+					inner = call
+				} else {
+					inner = call
+				}
+				return
+			}
+			if strings.HasPrefix(name, "dyn:") || strings.HasPrefix(name, "builtin:") {
+				return // the yield function of an iterator adaptor, len/cap
+			}
+			bad = true // anything else makes it more than a forwarder
+		})
+	}
+	scan(h, true)
+	for _, a := range Anons(h) {
+		scan(a, false)
+	}
+	if bad || n != 1 || inner == nil {
+		return nil
+	}
+	f := &c05MapFwd{name: CalleeName(inner), key: -1, val: -1, valueRes: -1, okRes: -1}
+	if inner.Parent() != h {
+		// an iterator adaptor over Range: a reader without key
+		if f.name != "(*sync.Map).Range" {
+			return nil
+		}
+		c05MapFwdCache[h] = f
+		return f
+	}
+	pidx := func(v ssa.Value) int {
+		p := c05ParamOf(v)
+		for i, q := range h.Params {
+			if q == p && p != nil {
+				return i
+			}
+		}
+		return -1
+	}
+	ia := inner.Common().Args
+	if len(ia) > 1 {
+		if f.key = pidx(ia[1]); f.key < 0 {
+			return nil
+		}
+	}
+	if len(ia) > 2 {
+		if f.val = pidx(ia[2]); f.val < 0 {
+			return nil
+		}
+	}
+	// results: which result of h is the inner value / the inner ok
+	iv, iok := ResultOf(inner, 0), ResultOf(inner, 1)
+	if inner.Common().Signature().Results().Len() == 1 {
+		if b, isB := inner.Common().Signature().Results().At(0).Type().Underlying().(*types.Basic); isB && b.Kind() == types.Bool {
+			iv, iok = nil, ResultOf(inner, 0)
+		}
+	}
+	var te, fe []Edge
+	okAl := map[ssa.Value]bool{}
+	if iok != nil {
+		okAl = Aliases(iok)
+		te, fe = BoolTests(h, okAl)
+	}
+	for k := 0; k < h.Signature.Results().Len(); k++ {
+		rt := h.Signature.Results().At(k).Type()
+		atoms := RetAtoms(h, k)
+		if len(atoms) == 0 {
+			continue
+		}
+		if b, isB := rt.Underlying().(*types.Basic); isB && b.Kind() == types.Bool && iok != nil {
+			good := true
+			for _, a := range atoms {
+				if okAl[a.Val] || okAl[strip(a.Val)] {
+					continue
+				}
+				if kc, isK := a.Val.(*ssa.Const); isK && kc.Value != nil {
+					if kc.Value.String() == "true" && len(te) > 0 && c05AtomMustPass(a, newCut().Edges(te...)) {
+						continue
+					}
+					if kc.Value.String() == "false" && len(fe) > 0 && c05AtomMustPass(a, newCut().Edges(fe...)) {
+						continue
+					}
+				}
+				if _, isZero := a.Val.(zeroMarker); isZero && len(fe) > 0 && c05AtomMustPass(a, newCut().Edges(fe...)) {
+					continue
+				}
+				good = false
+			}
+			if good && f.okRes < 0 {
+				f.okRes = k
+				continue
+			}
+		}
+		if iv != nil && f.valueRes < 0 {
+			good, some := true, false
+			for _, a := range atoms {
+				v := strip(a.Val)
+				if ta, isTA := v.(*ssa.TypeAssert); isTA {
+					v = strip(ta.X)
+				}
+				if ex, isE := v.(*ssa.Extract); isE && ex.Index == 0 && inner.Value() != nil && ex.Tuple == ssa.Value(inner.Value()) {
+					some = true
+					continue
+				}
+				if v == iv {
+					some = true
+					continue
+				}
+				if _, isZero := a.Val.(zeroMarker); isZero {
+					continue
+				}
+				if _, isK := v.(*ssa.Const); isK {
+					continue
+				}
+				good = false
+			}
+			if good && some {
+				f.valueRes = k
+			}
+		}
+	}
+	c05MapFwdCache[h] = f
+	return f
+}
+
+// c05MapOp: call as a concurrent-map operation, or nil.
+func c05MapOp(call ssa.CallInstruction) *c05MapView {
+	if call == nil || call.Common().IsInvoke() {
+		return nil
+	}
+	name := CalleeName(call)
+	args := call.Common().Args
+	if strings.HasPrefix(name, "(*sync.Map).") && len(args) > 0 {
+		v := &c05MapView{Call: call, Name: name, Recv: args[0]}
+		if len(args) > 1 {
+			v.Key = args[1]
+		}
+		if len(args) > 2 {
+			v.Val = args[2]
+		}
+		switch name {
+		case "(*sync.Map).Load", "(*sync.Map).LoadOrStore", "(*sync.Map).LoadAndDelete", "(*sync.Map).Swap":
+			v.Value, v.Ok = ResultOf(call, 0), ResultOf(call, 1)
+		case "(*sync.Map).CompareAndSwap", "(*sync.Map).CompareAndDelete":
+			v.Ok = ResultOf(call, 0)
+		}
+		return v
+	}
+	f := c05MapFwdOf(StaticCallee(call))
+	if f == nil || len(args) == 0 {
+		return nil
+	}
+	v := &c05MapView{Call: call, Name: f.name, Recv: args[0]}
+	if f.key >= 0 && f.key < len(args) {
+		v.Key = args[f.key]
+	}
+	if f.val >= 0 && f.val < len(args) {
+		v.Val = args[f.val]
+	}
+	if f.valueRes >= 0 {
+		v.Value = ResultOf(call, f.valueRes)
+	}
+	if f.okRes >= 0 {
+		v.Ok = ResultOf(call, f.okRes)
+	}
+	return v
+}
+
+// c05MapOpName: the canonical sync.Map operation a call performs ("" when it is none).
+func c05MapOpName(call ssa.CallInstruction) string {
+	if v := c05MapOp(call); v != nil {
+		return v.Name
+	}
+	return ""
+}
+
+// c05GlobalErrorTable: v is a load of a package-level slice variable that is
+// assigned only once, in its declaration, a literal of package-level error
+// variables: their short names.  ok=false when the table can change.
+func c05GlobalErrorTable(v ssa.Value) ([]string, bool) {
+	ld, ok := strip(v).(*ssa.UnOp)
+	if !ok || ld.Op != token.MUL {
+		return nil, false
+	}
+	g, ok := ld.X.(*ssa.Global)
+	if !ok || g.Pkg == nil {
+		return nil, false
+	}
+	// never written outside init, never address-taken
+	var cands []*ssa.Function
+	for _, m := range g.Pkg.Members {
+		if f, isF := m.(*ssa.Function); isF {
+			cands = append(cands, f)
+		}
+	}
+	if c05Cur != nil && c05Cur.p != nil {
+		// methods too
+		for f := range c05Cur.p.All {
+			if f.Parent() == nil && f.Pkg == g.Pkg && f.Signature.Recv() != nil {
+				cands = append(cands, f)
+			}
+		}
+	}
+	for _, f := range cands {
+		bad := false
+		for _, fn := range append([]*ssa.Function{f}, Anons(f)...) {
+			AllInstrs(fn, func(in ssa.Instruction) {
+				for _, op := range in.Operands(nil) {
+					if *op != ssa.Value(g) {
+						continue
+					}
+					if u, isLd := in.(*ssa.UnOp); isLd && u.Op == token.MUL {
+						continue
+					}
+					if st, isSt := in.(*ssa.Store); isSt && st.Addr == ssa.Value(g) && fn.Name() == "init" && fn.Parent() == nil {
+						continue
+					}
+					bad = true
+				}
+			})
+		}
+		if bad {
+			return nil, false
+		}
+	}
+	init := g.Pkg.Func("init")
+	if init == nil {
+		return nil, false
+	}
+	var names []string
+	n := 0
+	good := true
+	AllInstrs(init, func(in ssa.Instruction) {
+		st, ok := in.(*ssa.Store)
+		if !ok || st.Addr != ssa.Value(g) {
+			return
+		}
+		n++
+		sl, ok := st.Val.(*ssa.Slice)
+		if !ok {
+			good = false
+			return
+		}
+		a, ok := sl.X.(*ssa.Alloc)
+		if !ok {
+			good = false
+			return
+		}
+		for _, r := range *a.Referrers() {
+			ia, ok := r.(*ssa.IndexAddr)
+			if !ok {
+				continue
+			}
+			for _, r2 := range *ia.Referrers() {
+				if s2, ok := r2.(*ssa.Store); ok && s2.Addr == ssa.Value(ia) {
+					nm := sentinelName(s2.Val)
+					if nm == "" {
+						good = false
+					}
+					names = append(names, nm)
+				}
+			}
+		}
+	})
+	if !good || n != 1 {
+		return nil, false
+	}
+	return names, true
 }
